@@ -351,6 +351,34 @@ func main() {
 				e.Strs("proxyValidation", val, "Ingestor.Search: request validation conditions")
 			}
 			if fd := f.Func("Ingestor", "searchShard"); fd != nil {
+				// the arms of `switch resp.Code`: every arm returns an error, no arm = the response is data
+				var arms []string
+				found := false
+				ast.Inspect(fd.Body, func(n ast.Node) bool {
+					if sw, ok := n.(*ast.SwitchStmt); ok && sw.Tag != nil && f.Render(sw.Tag) == "resp.Code" {
+						found = true
+						for _, c := range sw.Body.List {
+							cc := c.(*ast.CaseClause)
+							returnsErr := false
+							for _, st := range cc.Body {
+								if rs, ok := st.(*ast.ReturnStmt); ok && len(rs.Results) == 3 && f.Render(rs.Results[2]) != "nil" {
+									returnsErr = true
+								}
+							}
+							if returnsErr {
+								for _, l := range cc.List {
+									arms = append(arms, f.Render(l))
+								}
+							}
+						}
+					}
+					return true
+				})
+				if found {
+					e.Strs("shardCodeArms", arms, "searchShard: the case labels of `switch resp.Code` that return an error")
+				} else {
+					e.Missing("shardCodeArms", "switch resp.Code not found in searchShard")
+				}
 				var st []string
 				ast.Inspect(fd.Body, func(n ast.Node) bool {
 					if is, ok := n.(*ast.IfStmt); ok && strings.Contains(f.Render(is.Cond), "ShuffleReplicas") {
